@@ -252,6 +252,54 @@ func c13Run(w *run.Worker) {
 			}
 		}
 	}
+	// exit() / a failing statement at every position of the body of a three-clause for, with and without a
+	// post clause, directly and in a used script; and pure forwarders: a script whose whole body is one use()
+	{
+		exitC := func() *rt.Node { return rt.Call("exit") }
+		raiseC := func() *rt.Node { return rt.Call("p", rt.Bin("/", I(1), Id("z"))) }
+		for _, ev := range []func() *rt.Node{exitC, raiseC} {
+			for pos := 0; pos <= 3; pos++ {
+				for _, withPost := range []bool{false, true} {
+					for _, viaUse := range []bool{false, true} {
+						if !w.Take() {
+							continue
+						}
+						body := []*rt.Node{rt.Call("add_key", Id("k"), Id("x")), rt.Call("p", I(5), Id("x"))}
+						if !withPost {
+							body = append(body, rt.Assign("=", Id("x"), rt.Bin("+", Id("x"), I(1))))
+						} else {
+							body = append(body, rt.Call("p", I(7)))
+						}
+						body = append(body[:pos], append([]*rt.Node{ev()}, body[pos:]...)...)
+						var post *rt.Node
+						if withPost {
+							post = rt.Assign("=", Id("x"), rt.Bin("+", Id("x"), I(1)))
+						}
+						loop := []*rt.Node{rt.Assign("=", Id("x"), I(0)), rt.For(nil, rt.Bin("<", Id("x"), I(3)), post, rt.Block(body...)), rt.Call("p", I(6))}
+						scripts := map[string][]*rt.Node{"b.p": trivial(), "c.p": trivial()}
+						if viaUse {
+							scripts["a.p"] = []*rt.Node{rt.Call("use", rt.Str("b.p")), rt.Call("use", rt.Str("b.p")), tail()}
+							scripts["b.p"] = loop
+						} else {
+							scripts["a.p"] = append(loop, tail())
+						}
+						c13Exec(w, "for-body", scripts)
+					}
+				}
+			}
+			for _, mid := range [][]*rt.Node{{rt.Call("use", rt.Str("c.p"))}, {rt.Call("use", rt.Str("c.p")), rt.Call("use", rt.Str("c.p"))}, {rt.If(rt.Bool(true), rt.Block(rt.Call("use", rt.Str("c.p"))))}} {
+				if !w.Take() {
+					continue
+				}
+				scripts := map[string][]*rt.Node{
+					"a.p": {rt.Call("p", I(1)), rt.Call("use", rt.Str("b.p")), tail()},
+					"b.p": mid,
+					"c.p": {rt.Assign("=", Id("x"), I(3)), rt.Call("add_key", Id("k"), Id("x")), ev(), rt.Call("p", I(8))},
+				}
+				c13Exec(w, "forwarder", scripts)
+			}
+		}
+	}
 	// two deployments: a later load of a set with the same caller text and another callee
 	// must not change what the earlier load's caller runs
 	mkSet := func(b []*rt.Node, viaB bool) *Prog {
@@ -372,7 +420,7 @@ func init() {
 		ID:    "C13",
 		Level: "model_checking",
 		Rule: "scripts a.p (uses b.p, c.p), b.p (uses c.p), c.p: every body of total size <=3 / <=2 / <=1 statements (thorough 3/3/2) over {x=K, p(K,x,k), add_key(k,x), exit(), raise, use(child)} each optionally inside `if true {}` / `for i in [1,2] {}` / the else branch of `if true {} else {}` (not taken) / of `if false {} else {}` (taken), " +
-			"same variable and key names on every side, followed by a final probe; all reachable combinations; plus exit()/raise in each clause of a three-clause for, directly and through use(); " +
+			"same variable and key names on every side, followed by a final probe; all reachable combinations; plus exit()/raise in each clause and at every body position of a three-clause for (with and without post clause), directly and through use(); pure forwarder scripts (whole body = one use()); " +
 			"oracle: probe trace, final point, error flag equal the reference (fresh scope per callee, shared point, exit local); on errors the position chain = failing statement, then every use site outward",
 		Assumptions: []string{"bodies of scripts that are not reachable are replaced by a trivial body (they cannot influence the run)"},
 		Run:            c13Run,
